@@ -20,7 +20,8 @@ LEVEL_TEXT = ("Held on every generated script of the run: subscribe / unsubscrib
 LEVEL_NOTE = ("trusts the subscriber-set/value model in this module and pv/refwire.py; a change of the subscriber set in the instant a "
               "round starts makes that endpoint 'either' for that round; one live subscription per endpoint and eventgroup at a time")
 RULE = (
-    "scripts of 4-40 actions over {subscribe, unsubscribe} x 4 endpoints x 1-2 eventgroups, set value, notify_once(subset), at new "
+    "scripts of 4-40 actions over {subscribe, unsubscribe, late/duplicate unsubscribe of an unsubscribed endpoint} x 4 endpoints x "
+    "1-2 eventgroups, set value, notify_once(subset), at new "
     "instants / same iteration / around cyclic ticks, resolution latency {0, 2^-6}, cyclic interval {none, 0.5}, refusal probes "
     "(0 / 2 endpoints, unknown eventgroup). distinct = distinct (configuration, action/placement sequence); non-trivial = at least "
     "one notification was sent to a subscriber"
@@ -29,7 +30,7 @@ ASSUMPTIONS = ["'subscribed at that time' = at the instant the round was request
                "event ids are distinct across the eventgroups of the service, so every notification is attributable"]
 FLOORS = {"quick": {"scripts": 5000, "notifications_checked": 150000, "initial_notifications": 15000, "explicit_round_notifications": 20000,
                     "cyclic_rounds": 10000, "session_ids_checked": 150000, "refusals_checked": 2000, "latency_scripts": 1500,
-                    "rounds_with_no_subscriber": 1500, "unsubscribe_between_request_and_send": 30}}
+                    "rounds_with_no_subscriber": 1500, "unsubscribe_between_request_and_send": 30, "unsubscribe_of_unsubscribed_endpoint": 800}}
 
 FOREVER = 0xFFFFFF
 SID, MAJ = 0xA001, 4
@@ -104,6 +105,9 @@ def build(rng):
             evs = list(GROUPS[g])
             rng.shuffle(evs)
             a = dict(kind="notify", g=g, evs=evs[: rng.randrange(1, len(evs) + 1)])
+        elif r < 0.97 and free:
+            # a late or duplicate unsubscribe for an endpoint that is not subscribed (delivered through the listener interface)
+            a = dict(kind="unsub-unknown", g=g, ep=rng.choice(free), via=rng.choice(SUBSCRIBERS))
         else:
             a = dict(kind="refuse", g=g, how=rng.choice(("no-endpoint", "two-endpoints", "unknown-eventgroup")), via=rng.choice(SUBSCRIBERS))
         script.append((t, rank, a))
@@ -128,6 +132,7 @@ class Run:
         self.refusals = []  # (t, how, outcome)
         self.raised = []
         self.counter = 0
+        self.unknown_unsubs = 0
 
     def setup(self):
         SV = self.SV
@@ -163,6 +168,16 @@ class Run:
                 self.subscribe_datagram(a["g"], [a["ep"]], a["ttl"], a["via"])
             elif k == "unsub":
                 self.subscribe_datagram(a["g"], [a["ep"]], 0, a["via"])
+            elif k == "unsub-unknown":
+                import ipaddress
+                import someip.header as H
+
+                kind, host, port = ENDPOINTS[a["ep"]]
+                cls, ip = (H.IPv4EndpointOption, ipaddress.IPv4Address) if kind == "v4" else (H.IPv6EndpointOption, ipaddress.IPv6Address)
+                sub = S.EventgroupSubscription(service_id=SID, instance_id=1, major_version=MAJ, id=a["g"], counter=0, ttl=0,
+                                               endpoints=frozenset({cls(address=ip(host), l4proto=H.L4Protocols.UDP, port=port)}))
+                self.unknown_unsubs += 1
+                self.svc.client_unsubscribed(sub, a["via"])
             elif k == "set":
                 self.groups[a["g"]].values[a["ev"]] = a["val"]
             elif k == "notify":
@@ -209,6 +224,7 @@ def judge(ctx, sc, seed, replay):
     sent, problems = run.execute()
     L = sc["lat"]
     ctx.count("scripts")
+    ctx.count("unsubscribe_of_unsubscribed_endpoint", run.unknown_unsubs)
     if L:
         ctx.count("latency_scripts")
     brief = dict(latency=L, intervals=sc["interval"], script=[(t, r, a) for t, r, a in sc["script"]][:18])
